@@ -355,7 +355,23 @@ func (c *FnCtx) replaySource(model, elems map[string]string) (string, string) {
 		assign = strings.Join(lhs, ", ") + " := "
 		var parts []string
 		for i := 0; i < nres; i++ {
-			parts = append(parts, fmt.Sprintf(`fmt.Sprintf("r%d=%%v", r%d)`, i, i))
+			rt := sig.Results().At(i).Type()
+			switch {
+			case isErrorType(rt):
+				parts = append(parts, fmt.Sprintf(`fmt.Sprintf("r%d=err:%%v", r%d != nil)`, i, i))
+			case isBool(rt):
+				parts = append(parts, fmt.Sprintf(`fmt.Sprintf("r%d=bool:%%v", r%d)`, i, i))
+			default:
+				if _, sg, ok := basicInfo(rt); ok {
+					if sg {
+						parts = append(parts, fmt.Sprintf(`fmt.Sprintf("r%d=int:%%d", int64(r%d))`, i, i))
+					} else {
+						parts = append(parts, fmt.Sprintf(`fmt.Sprintf("r%d=uint:%%d", uint64(r%d))`, i, i))
+					}
+				} else {
+					parts = append(parts, fmt.Sprintf(`fmt.Sprintf("r%d=other:%%v", r%d)`, i, i))
+				}
+			}
 		}
 		show = strings.Join(parts, ` + " " + `)
 	}
@@ -388,4 +404,115 @@ func TestVerifReplay(t *testing.T) {
 }
 `, assign, call, show)
 	return src, ""
+}
+
+// ---------------------------------------------------------------------------
+// Ground re-check: evaluates a failed postcondition on the values the REAL function returned for the
+// model's inputs (scalar parameters and results only).
+// ---------------------------------------------------------------------------
+
+type groundReq struct {
+	Func       string            `json:"func"`
+	Obligation string            `json:"obligation"`
+	Model      map[string]string `json:"model"`
+	Observed   string            `json:"observed"`
+}
+
+func runGround(prog *Prog, req groundReq) string {
+	c, err := prog.genFunc(req.Func)
+	if err != nil || c.contract == nil {
+		return "GROUND: not applicable (" + fmt.Sprint(err) + ")"
+	}
+	// which ensures clause?  obligation name <func>.post.<k>[#...]
+	idx := -1
+	if k := strings.Index(req.Obligation, ".post."); k >= 0 {
+		rest := req.Obligation[k+6:]
+		if h := strings.IndexAny(rest, "#."); h >= 0 {
+			rest = rest[:h]
+		}
+		idx = atoi(rest) - 1
+	}
+	if idx < 0 || idx >= len(c.contract.Ensures) {
+		return "GROUND: not applicable (not a postcondition)"
+	}
+	// pin inputs
+	var pins []string
+	vars := map[string]Val{}
+	for i, in := range c.inputs {
+		sv, ok := in.Val.(SV)
+		if !ok {
+			return "GROUND: not applicable (non-scalar parameter " + in.Name + ")"
+		}
+		val, ok := req.Model[sv.T]
+		if !ok {
+			return "GROUND: not applicable (no model value for " + in.Name + ")"
+		}
+		if sv.S.K == KHash {
+			return "GROUND: not applicable (hash parameter)"
+		}
+		pins = append(pins, app("=", sv.T, val))
+		vars[c.contract.Params[i]] = sv
+	}
+	// observed results
+	sig := c.fn.Type().(*types.Signature)
+	obs := strings.Fields(strings.TrimPrefix(req.Observed, "RETURN"))
+	if len(obs) != sig.Results().Len() {
+		return "GROUND: not applicable (cannot parse the observed results)"
+	}
+	for i, o := range obs {
+		kv := strings.SplitN(o, "=", 2)
+		if len(kv) != 2 {
+			return "GROUND: not applicable (cannot parse " + o + ")"
+		}
+		tv := strings.SplitN(kv[1], ":", 2)
+		if len(tv) != 2 {
+			return "GROUND: not applicable (cannot parse " + o + ")"
+		}
+		rt := sig.Results().At(i).Type()
+		var v Val
+		switch tv[0] {
+		case "err", "bool":
+			v = SV{tv[1], SBool, false}
+		case "int", "uint":
+			w, sg, ok := basicInfo(rt)
+			if !ok {
+				return "GROUND: not applicable (result type)"
+			}
+			b, ok2 := new(big.Int).SetString(tv[1], 10)
+			if !ok2 {
+				return "GROUND: not applicable (result value)"
+			}
+			v = SV{bvConst(b, w), BV(w), sg}
+		default:
+			return "GROUND: not applicable (non-scalar result)"
+		}
+		if i < len(c.contract.Results) && c.contract.Results[i] != "_" {
+			vars[c.contract.Results[i]] = v
+		}
+	}
+	st := c.entry.clone()
+	env := &CEnv{vars: vars, old: c.entry, oldV: vars}
+	goal := c.evalClause(st, c.contract.Ensures[idx], env)
+	var b strings.Builder
+	b.WriteString(prog.Prelude)
+	for _, s := range c.sortDecls {
+		b.WriteString(s + "\n")
+	}
+	for _, l := range c.log {
+		if strings.HasPrefix(l, "(declare-const") || strings.HasPrefix(l, "(define-fun") {
+			b.WriteString(l + "\n")
+		}
+	}
+	for _, p := range pins {
+		b.WriteString("(assert " + p + ")\n")
+	}
+	b.WriteString("(assert " + not(goal) + ")\n(check-sat)\n")
+	r := runSolver(solvers(20)[0], b.String(), 20)
+	switch r.status {
+	case "sat":
+		return "GROUND: violated -- the real function's results for the model's inputs falsify: " + c.contract.Ensures[idx].Text
+	case "unsat":
+		return "GROUND: holds -- the real function satisfies the clause on the model's inputs (the model exploits an abstraction)"
+	}
+	return "GROUND: undecided (" + truncate(r.out, 200) + ")"
 }
